@@ -24,6 +24,15 @@ fn main() {
                 let hay: String = cps(f[5]).into_iter().map(|c| char::from_u32(c).unwrap()).collect();
                 regress::verif_top::find_from_json(&cps(f[3]), f[1], f[2] == "1", &hay, f[4].parse().unwrap())
             }
+            "prop" => regress::verif_top::prop_table_json(f[1], f[2]),
+            "finda" => {
+                let hay: String = cps(f[5]).into_iter().map(|c| char::from_u32(c).unwrap()).collect();
+                regress::verif_top::find_from_ascii_json(&cps(f[3]), f[1], f[2] == "1", &hay, f[4].parse().unwrap())
+            }
+            "findnp" => {
+                let hay: String = cps(f[5]).into_iter().map(|c| char::from_u32(c).unwrap()).collect();
+                regress::verif_top::find_from_json2(&cps(f[3]), f[1], f[2] == "1", &hay, f[4].parse().unwrap(), true)
+            }
             _ => "{\"ok\": false, \"err\": \"bad request\"}".to_string(),
         };
         writeln!(out, "{}", res).unwrap();
